@@ -1,6 +1,8 @@
 #!/usr/bin/env python3
 import json, sys
 pid, wt = sys.argv[1], sys.argv[2]
+avoid = sys.argv[3] if len(sys.argv) > 3 else ''
+avoid_text = (' Somebody else already tried the following, so choose a DIFFERENT function or mechanism: ' + avoid) if avoid else ''
 for l in open('/verif/properties.jsonl'):
     p = json.loads(l)
     if p['id'] == pid: break
@@ -14,7 +16,7 @@ QUANTIFIER: {p['quantifier']['text']}
 FILES INVOLVED: {', '.join(p['anchors']['files'])}
 MECHANISMS: {json.dumps(p['anchors']['mechanism'])}
 
-Your task: produce ONE realistic source change (a bug a maintainer could plausibly introduce: an off-by-one, a forgotten update of a link/counter, a wrong condition, a missing branch, an optimisation that is wrong in a corner case, two sites that each look fine alone...) to the library sources under {wt}/include or {wt}/src that BREAKS the property above while the library still compiles and the ENTIRE existing test-suite still passes (run it to be sure: all 34 tests must pass). The change must need something specific to manifest - a particular multi-step sequence of operations, a particular tree/chain shape, a particular size or capacity boundary, an unusual input, a particular interleaving or fault - NOT something ordinary use exposes at once. Do not change tests. Keep the change small (a few lines).
+Your task: produce ONE realistic source change (a bug a maintainer could plausibly introduce: an off-by-one, a forgotten update of a link/counter, a wrong condition, a missing branch, an optimisation that is wrong in a corner case, two sites that each look fine alone...) to the library sources under {wt}/include or {wt}/src that BREAKS the property above while the library still compiles and the ENTIRE existing test-suite still passes (run it to be sure: all 34 tests must pass). The change must need something specific to manifest - a particular multi-step sequence of operations, a particular tree/chain shape, a particular size or capacity boundary, an unusual input, a particular interleaving or fault - NOT something ordinary use exposes at once. Do not change tests. Keep the change small (a few lines).{avoid_text}
 
 Also write a small stand-alone demonstration program {wt}/demo.cpp (plain C++, using the library headers; note nstd/Base.hpp defines placement new itself, so do NOT include <new>, <string>, <vector> or other C++ standard headers that pull in <new> in the same file - use <stdio.h>/<stdlib.h>/<string.h>/<pthread.h> only) that exits 0 when the property holds on the scenario and exits non-zero (or crashes under -fsanitize=address) with your change applied. Build it e.g. with: g++ -std=c++11 -g -fsanitize=address -I{wt}/include demo.cpp {wt}/src/*.cpp {wt}/src/Crypto/*.cpp {wt}/src/Document/*.cpp {wt}/src/Socket/*.cpp -lpthread -lrt -ldl -o demo (leave out source directories you do not need). Verify yourself: demo passes WITHOUT the change (toggle it with `git -C {wt} diff -- include src > /tmp/x.diff; git -C {wt} apply -R /tmp/x.diff; ...; git -C {wt} apply /tmp/x.diff` using a file name of your own; NEVER use `git stash`: the stash is shared with other worktrees of the same repository and other people use them concurrently) and fails WITH it; the test-suite passes WITH it.
 
